@@ -3,6 +3,8 @@
    8(m+T) + (T+9) + 6*blocks + 10T).
    Assumption (stated in DESIGN): condition variables have no spurious wake-ups. *)
 From Wencry Require Import Bytes FileModel PipeConc PipeProps PipeProofs.
+From Wencry Require PipeSync.
+From Wencry.Gen Require Sync.
 Local Open Scope nat_scope.
 
 Section C04.
@@ -37,3 +39,9 @@ End C04.
 Print Assumptions C04_no_lost_wakeup.
 Print Assumptions C04_deadlock_free.
 Print Assumptions C04_bounded_steps.
+
+(* the functions of the hand-over protocol, as clang reads the CURRENT sources, are textually the ones the transition system
+   was written from (regenerated on every run; see PipeSync.v) *)
+Theorem C04_protocol_text_is_the_modelled_one : Sync.sync_skeleton = PipeSync.expected_skeleton.
+Proof. exact PipeSync.skeleton_unchanged. Qed.
+Print Assumptions C04_protocol_text_is_the_modelled_one.
